@@ -196,7 +196,49 @@ async def yield_discipline(ctx, version: str, lines: list[str]) -> None:
                       case)
 
 
+async def wake_fault_registry_case(ctx, case: dict) -> None:
+    """What the registry records is what was REPORTED, not what could be written afterwards: a wake message that carries a
+    heartbeat is recorded although a write of the flush it triggers fails (the failure itself is C08's business)."""
+    from aiomysensors.model.message import Message
+    from aiomysensors.model.node import Child, Node
+
+    from ..harness import FAULT_CLASSES, Stepper, is_library_error
+
+    version, n_parked, fail_at, wake_type, value = (case["version"], case["parked"], case["fail_at"], case["wake_type"],
+                                                    case["value"])
+    gateway, transport = new_gateway(version)
+    stepper = Stepper(gateway, transport)
+    gateway.nodes[1] = Node(1, 17, "2.0", children={c: Child(c, 3) for c in range(4)}, sleeping=True, heartbeat=3,
+                            battery_level=40)
+    for c in range(n_parked):
+        await stepper.tx(Message(1, c, 1, 0, 2, f"v{c}"))
+    transport.take_writes()
+    transport.fail_attempts = {transport.attempts + fail_at}
+    transport.fault_class = FAULT_CLASSES[(fail_at + n_parked + wake_type) % len(FAULT_CLASSES)]
+    kind, result = await stepper.rx(f"1;255;3;0;{wake_type};{value}\n")
+    transport.fail_attempts = set()
+    ctx.case(("wake-fault-registry", version, n_parked, fail_at, wake_type, value), nontrivial=True, sample=case)
+    ctx.clause("registry-after-failed-flush")
+    node = gateway.nodes.get(1)
+    await stepper.close()
+    if kind == "error" and not is_library_error(result):
+        return  # C03's finding
+    if kind == "yield":
+        ctx.obs("wake-fault-registry:no-failure-surfaced")  # e.g. nothing was released by this message kind
+    if node is None:
+        ctx.violation("registry-differs", f"node 1 vanished after {case}", case)
+        return
+    if wake_type == 22 and node.heartbeat != value:
+        ctx.violation("registry-differs", f"heartbeat report {value} with a failing flush write (#{fail_at} of {n_parked}) under "
+                                          f"{version}: the registry holds heartbeat {node.heartbeat!r}", case)
+    if wake_type == 0 and node.battery_level != value:
+        ctx.violation("registry-differs", f"battery report {value} ({version}): registry holds {node.battery_level!r}", case)
+
+
 def run_case(ctx, case: dict) -> None:
+    if case.get("kind") == "wake-fault-registry":
+        arun(wake_fault_registry_case(ctx, case))
+        return
     if case.get("kind") == "batch":
         arun(yield_discipline(ctx, case["version"], case["lines"]))
     else:
@@ -212,6 +254,15 @@ def run(ctx) -> None:
             gen = histories.HistoryGen(rng, version)
             lines = [gen.rx_line() + "\n" for _ in range(rng.choice([2, 5, 20, 60]))]
             arun(yield_discipline(ctx, version, lines))
+        index = 0
+        for version in ("2.0", "2.1", "2.2"):
+            for n_parked in (1, 2, 3):
+                for fail_at in range(n_parked):
+                    for wake_type, value in ((22, 77), (22, 0), (32, 500), (0, 55)):
+                        index += 1
+                        if ctx.mine(index):
+                            arun(wake_fault_registry_case(ctx, {"kind": "wake-fault-registry", "version": version, "parked": n_parked,
+                                                               "fail_at": fail_at, "wake_type": wake_type, "value": value}))
     reach.into(ctx)
     for clause in ("registry", "outcome", "yield-fields", "error-names-id", "missing-changes-nothing",
                    "yield-exactly-once-in-order"):
